@@ -2,11 +2,13 @@
    (Model/Factorized.v), for EVERY carrier F whose operations form a commutative ring, every order,
    every mode size and every rank. *)
 From Coq Require Import List Arith ZArith Ring Lia Reals RealField.
-From TLV Require Import Base.Shape Base.PyList Base.Tensor Base.BigSum Base.Ops Model.Base Model.Factorized Model.FactorizedSrc
+From TLV Require Import Base.Shape Base.PyList Base.Tensor Base.BigSum Base.Ops Model.Base Model.Factorized Model.FactorizedSrc Model.Factorized2 Model.FactorizedSrc2
   Proofs.FactorizedProofs Proofs.FactorizedProofs2 Proofs.FactorizedProofs3 Proofs.FactorizedProofs4
   Proofs.FactorizedProofs5 Proofs.FactorizedProofs6 Proofs.FactorizedProofs7 Proofs.FactorizedProofs8
   Proofs.FactorizedProofs9 Proofs.FactorizedProofs10 Proofs.FactorizedProofs11 Proofs.FactorizedProofs12 Proofs.FactorizedProofs13 Proofs.FactorizedProofs14
-  Proofs.BaseProofs6 Proofs.FactorizedProofs15 Proofs.FactorizedProofs16 Proofs.FactorizedProofs17 Proofs.FactorizedProofs18 Proofs.FactorizedProofs19 Proofs.FactorizedProofs20 Proofs.FactorizedProofs21 Proofs.FactorizedProofs22.
+  Proofs.BaseProofs6 Proofs.FactorizedProofs15 Proofs.FactorizedProofs16 Proofs.FactorizedProofs17 Proofs.FactorizedProofs18 Proofs.FactorizedProofs19 Proofs.FactorizedProofs20 Proofs.FactorizedProofs21 Proofs.FactorizedProofs22 Proofs.FactorizedProofs23 Proofs.FactorizedProofs24 Proofs.FactorizedProofs25.
+From TLV Require Model.Tenalg.
+From Coq Require Import Sorting.Sorted Sorting.Permutation.
 Import ListNotations.
 
 Definition is_ring {F : Type} (Op : fops F) : Prop :=
@@ -869,3 +871,140 @@ Example C03_tucker_modes_example :
   tucker_to_tensor_modes Zops (mk [2; 2] [1; 0; -1; 2]%Z) [mk [3; 2] [1; 2; 3; 4; 5; 6]%Z] [1] = Ok (mk [2; 3] [1; 3; 5; 3; 5; 7]%Z) /\
   tucker_to_tensor_modes Zops (mk [2; 2] [1; 0; -1; 2]%Z) [mk [3; 2] [1; 2; 3; 4; 5; 6]%Z] [2] = Err.
 Proof. split; vm_compute; reflexivity. Qed.
+
+(* ================================================================== round 7 *)
+(* ------------------------------------------------------------------ tucker_to_tensor(modes=...) with ARBITRARY modes (Model/Factorized2.v) *)
+(* multi_mode_dot sorts the (factor, mode) pairs by mode with Python's stable sort: sort_modes is a permutation, sorted, and keeps the
+   list order among the pairs of any one mode -- the three properties that determine a stable sort *)
+Theorem C03_sort_modes_stable_sort : forall (F : Type) (l : list (tensor F * nat)),
+  Permutation (sort_modes l) l /\ StronglySorted le (map snd (sort_modes l)) /\
+  forall m, filter (fun q => snd q =? m) (sort_modes l) = filter (fun q => snd q =? m) l.
+Proof. intros F l. split; [apply sort_modes_perm|]. split; [apply sort_modes_sorted|]. intros m. apply sort_modes_stable. Qed.
+Print Assumptions C03_sort_modes_stable_sort.
+(* on a non-decreasing list of modes (the default range(len(factors)), every sorted selection) the sort changes nothing: the fold of
+   Model/Factorized.v in list order, to which C03_tucker_modes_ok_fits applies *)
+Theorem C03_tucker_modes_sorted_eq : forall (F : Type) (Op : fops F) (core : tensor F) (fs : list (tensor F)) (ms : list nat),
+  StronglySorted le ms -> tucker_to_tensor_modes_sorted Op core fs ms = tucker_to_tensor_modes Op core fs ms.
+Proof. exact tucker_modes_sorted_eq. Qed.
+Print Assumptions C03_tucker_modes_sorted_eq.
+Theorem C03_tucker_modes_sorted_default : forall (F : Type) (Op : fops F) (core : tensor F) (fs : list (tensor F)),
+  tucker_to_tensor_modes_sorted Op core fs (seq 0 (length fs)) = tucker_to_tensor Op core fs None false.
+Proof. exact tucker_modes_sorted_default. Qed.
+Print Assumptions C03_tucker_modes_sorted_default.
+(* any modes, repeated ones included: a tensor is returned ONLY if every pair, in sorted order, is a matrix whose column count is the
+   CURRENT size of its mode (modes_fit: the running shape; a repeated mode sees the row count of the previous factor), and then its
+   shape is the running shape at the end; conversely fitting pairs are always multiplied (well-formed non-empty core, non-empty factors) *)
+Theorem C03_modes_fit_unfold : forall (F : Type) (shp : list nat) (M : tensor F) (m : nat) (r : list (tensor F * nat)),
+  (modes_fit shp (@nil (tensor F * nat)) <-> True) /\
+  (modes_fit shp ((M, m) :: r) <-> ndim M = 2 /\ m < length shp /\ ncols M = nth m shp 0 /\ modes_fit (set_nth m (nrows M) shp) r) /\
+  modes_shape shp (@nil (tensor F * nat)) = shp /\ modes_shape shp ((M, m) :: r) = modes_shape (set_nth m (nrows M) shp) r.
+Proof. intros. cbn [modes_fit modes_shape]. tauto. Qed.
+Print Assumptions C03_modes_fit_unfold.
+Theorem C03_tucker_modes_sorted_ok_fits : forall (F : Type) (Op : fops F) (core : tensor F) (fs : list (tensor F)) (ms : list nat) (t : tensor F),
+  tucker_to_tensor_modes_sorted Op core fs ms = Ok t ->
+  modes_fit (shape core) (sort_modes (combine fs ms)) /\ shape t = modes_shape (shape core) (sort_modes (combine fs ms)).
+Proof. exact tucker_modes_sorted_ok_fits. Qed.
+Print Assumptions C03_tucker_modes_sorted_ok_fits.
+Theorem C03_tucker_modes_sorted_misfit_rejected : forall (F : Type) (Op : fops F) (core : tensor F) (fs : list (tensor F)) (ms : list nat),
+  ~ modes_fit (shape core) (sort_modes (combine fs ms)) -> tucker_to_tensor_modes_sorted Op core fs ms = Err.
+Proof. exact tucker_modes_sorted_misfit_rejected. Qed.
+Print Assumptions C03_tucker_modes_sorted_misfit_rejected.
+Theorem C03_tucker_modes_sorted_fits_ok : forall (F : Type) (Op : fops F) (core : tensor F) (fs : list (tensor F)) (ms : list nat),
+  wf core -> 0 < prod (shape core) -> modes_fit (shape core) (sort_modes (combine fs ms)) ->
+  Forall (fun q => 0 < nrows (fst q)) (sort_modes (combine fs ms)) ->
+  exists t, tucker_to_tensor_modes_sorted Op core fs ms = Ok t /\ wf t /\ shape t = modes_shape (shape core) (sort_modes (combine fs ms)).
+Proof. intros F Op core fs ms. apply mmd_modes_fits_ok. Qed.
+Print Assumptions C03_tucker_modes_sorted_fits_ok.
+(* non-vacuity: two factors along the SAME mode 1 of a 2 x 2 core -- a 3 x 2 matrix, then a 1 x 3 matrix contracting the size 3 it left --,
+   given AFTER a factor for mode 0 in the list; a second factor with the column count of the ORIGINAL core mode (2) is refused *)
+Example C03_tucker_repeated_modes_example :
+  let core := mk [2; 2] [1; 0; -1; 2]%Z in
+  let A := mk [3; 2] [1; 2; 3; 4; 5; 6]%Z in
+  (exists t, tucker_to_tensor_modes_sorted Zops core [A; mk [1; 3] [1; -1; 2]%Z; mk [2; 2] [0; 1; 1; 0]%Z] [1; 1; 0] = Ok t /\ shape t = [2; 1]) /\
+  tucker_to_tensor_modes_sorted Zops core [A; mk [1; 2] [1; -1]%Z] [1; 1] = Err /\
+  modes_fit [2; 2] (sort_modes (combine [A; mk [1; 3] [1; -1; 2]%Z] [1; 1])).
+Proof. cbv zeta. split; [eexists; split; vm_compute; reflexivity|]. split; [vm_compute; reflexivity|]. cbn. repeat split; auto. Qed.
+
+(* ------------------------------------------------------------------ 0-order inputs (a Python number instead of a factor set) *)
+(* cp_to_tensor tests `if not shape`: no (weights, factors) tuple has an empty validated shape, so the test separates exactly the
+   numbers (validated as (0, 0)) from the tuples *)
+Theorem C03_validate_cp_shape_nonempty : forall (F : Type) (w : option (tensor F)) (fs : list (tensor F)) (shp : list nat) (R : nat),
+  validate_cp w fs = Ok (shp, R) -> shp <> [] /\ length shp = length fs.
+Proof. exact validate_cp_shape_nonempty. Qed.
+Print Assumptions C03_validate_cp_shape_nonempty.
+(* a number x: reported as (shape (), rank 0); cp_to_tensor(x[, mask]) = x whatever the mask; cp_to_vec(x) = [x]; cp_to_unfolded and
+   cp_norm raise (they unpack the argument) *)
+Theorem C03_cp_zero_order : forall (F : Type) (Op : fops F) (x : F) (mask : option (tensor F)),
+  validate_cp_in (CpNum x) = Ok ([], 0) /\ cp_to_tensor_in Op (CpNum x) mask = Ok (scalar x) /\
+  cp_to_vec_in Op (CpNum x) = Ok (mk [1] [x]) /\ (forall m, cp_to_unfolded_in Op (CpNum x) m = Err) /\ cp_normsq_in Op (CpNum x) = Err.
+Proof. exact cp_in_number. Qed.
+Print Assumptions C03_cp_zero_order.
+(* a tuple: the functions with the 0-order branch in front are the functions of Model/Factorized.v *)
+Theorem C03_cp_in_tuple : forall (F : Type) (Op : fops F) (w : option (tensor F)) (fs : list (tensor F)) (mask : option (tensor F)),
+  validate_cp_in (CpTup w fs) = validate_cp w fs /\ cp_to_tensor_in Op (CpTup w fs) mask = cp_to_tensor Op w fs mask /\
+  cp_to_vec_in Op (CpTup w fs) = cp_to_vec Op w fs.
+Proof. exact cp_in_tuple. Qed.
+Print Assumptions C03_cp_in_tuple.
+(* tt_to_tensor(x) = x, tt_to_vec(x) = [x], tt_to_unfolded raises; _validate_tt_tensor(x) raises (len(x) first: its 0-order branch is dead) *)
+Theorem C03_tt_zero_order : forall (F : Type) (Op : fops F) (x : F),
+  validate_tt_in (TtNum x) = Err /\ tt_to_tensor_in Op (TtNum x) = Ok (scalar x) /\ tt_to_vec_in Op (TtNum x) = Ok (mk [1] [x]) /\
+  (forall m, tt_to_unfolded_in Op (TtNum x) m = Err).
+Proof. exact tt_in_number. Qed.
+Print Assumptions C03_tt_zero_order.
+
+(* ------------------------------------------------------------------ semantic source tie (Model/FactorizedSrc2.v) *)
+(* similar validator programs -- the same scalar fields and the same set of raising conditions up to re-ordering of the `if ...: raise`
+   statements, the operand order of == / != / and, `not a == b` for `a != b`, double negation, `x` for `x != 0` -- have the same
+   interpretation on EVERY input; with C03_*_prog_link: a similar program regenerated from the source IS the model's validator *)
+Theorem C03_run_chain_sim : forall P Q : chainprog, chainprog_sim P Q = true -> forall shapes, run_chain P shapes = run_chain Q shapes.
+Proof. exact run_chain_sim. Qed.
+Print Assumptions C03_run_chain_sim.
+Theorem C03_run_tk_sim : forall P Q : tkprog, tkprog_sim P Q = true -> forall core shapes, run_tk P core shapes = run_tk Q core shapes.
+Proof. exact run_tk_sim. Qed.
+Print Assumptions C03_run_tk_sim.
+Theorem C03_run_cp_sim : forall P Q : cpprog, cpprog_sim P Q = true -> forall w shapes, run_cp P w shapes = run_cp Q w shapes.
+Proof. exact run_cp_sim. Qed.
+Print Assumptions C03_run_cp_sim.
+Theorem C03_run_p2_sim : forall P Q : p2prog, p2prog_sim P Q = true ->
+  forall w fshapes pshapes orth, run_p2 P w fshapes pshapes orth = run_p2 Q w fshapes pshapes orth.
+Proof. exact run_p2_sim. Qed.
+Print Assumptions C03_run_p2_sim.
+(* non-vacuity: a re-ordered, re-spelled _validate_tt_tensor is similar to (and different from) the reference program; the finite box
+   accepts an equivalent program that is not similar (the redundant `index and` dropped) and separates a wrong one *)
+Example C03_tt_prog_respelled_sim :
+  let Q := mk_chainprog 0 3
+    [CAnd (CNe (VNum 1) (VCur 2)) (CEq VNFm1 VIndex);
+     CAnd (CNe (VCur 0) (VPrevAt 2)) (CNot (CEq VIndex (VNum 0)));
+     CNe VNdim (VNum 3);
+     CAnd (CEq VIndex (VNum 0)) (CNot (CEq (VCur 0) (VNum 1)))] [1] 0 2 in
+  chainprog_sim Q tt_prog = true /\ Q <> tt_prog.
+Proof. exact tt_prog_respelled_sim. Qed.
+
+(* ------------------------------------------------------------------ the reading of ein_chain (Proofs25) *)
+(* The einsum-backend tt_matrix_to_tensor is modelled by nested sums (ein_chain).  On every TT-matrix the route accepts -- any number of
+   cores -- the model's value IS np.einsum, in the generic label-level semantics Tenalg.einsum of Model/Tenalg.v (the sum, over all
+   assignments of the labels absent from the output, of the product of the operand entries), applied to the equation ttm_equation N
+   (N = number of cores; the harness checks on every run that the equation recorded from the current source is this one up to renaming),
+   followed by the transposition ttm_transposition N.  ttm_einsum_generic is that composition. *)
+Theorem C03_ttm_einsum_generic_unfold : forall (F : Type) (Op : fops F) (cores : list (tensor F)),
+  ttm_einsum_generic Op cores =
+  transpose (f0 Op) (ttm_transposition (length cores))
+    (Tenalg.einsum (rops_of Op) (fst (ttm_equation (length cores))) (snd (ttm_equation (length cores))) cores).
+Proof. reflexivity. Qed.
+Print Assumptions C03_ttm_einsum_generic_unfold.
+Theorem C03_ttm_einsum_is_np_einsum : forall (F : Type) (Op : fops F), is_ring Op -> forall (cs : list (tensor F)) (t : tensor F),
+  ttm_to_tensor_einsum Op cs = Ok t -> t = ttm_einsum_generic Op cs.
+Proof. exact ttm_einsum_is_np_einsum. Qed.
+Print Assumptions C03_ttm_einsum_is_np_einsum.
+(* the chain of nested sums alone, for consecutive ranks that match and ANY first boundary rank r0 (summed, as np.einsum does) *)
+Theorem C03_ein_chain_is_einsum : forall (F : Type) (Op : fops F), is_ring Op ->
+  forall (cs : list (tensor F)) (ds : list (nat * nat * nat * nat)) (x0 : nat * nat * nat * nat),
+  all_shape4 cs = Ok ds -> cs <> [] -> chain_ok4 (d4a (hd x0 ds)) ds = true ->
+  Tenalg.einsum (rops_of Op) (fst (ttm_equation (length cs))) (snd (ttm_equation (length cs))) cs =
+  tabulate (flat_map (fun x => [d4b x; d4c x]) ds) (fun idx => fsumn Op (d4a (hd x0 ds)) (fun a => ein_chain Op cs ds idx a)).
+Proof. exact ein_chain_is_einsum. Qed.
+Print Assumptions C03_ein_chain_is_einsum.
+Example C03_ttm_einsum_reading_example :
+  let cs := [mk [1; 2; 1; 2] [1; 2; 3; 4]%Z; mk [2; 1; 2; 1] [1; 0; -1; 2]%Z] in
+  exists t, ttm_to_tensor_einsum Zops cs = Ok t /\ shape t = [2; 1; 1; 2] /\ t = ttm_einsum_generic Zops cs.
+Proof. cbv zeta. eexists. split; [vm_compute; reflexivity|]. split; vm_compute; reflexivity. Qed.
